@@ -263,6 +263,9 @@ func (cr *checkRun) runUnit(full string) {
 		cr.solverTime += o.Res.Time
 		slows = append(slows, slow{o.Name, o.Res.Time})
 		if o.OK() {
+			slowLog(cr.prop.ID, o.Name, o.Res.Solver, o.Res.Time)
+		}
+		if o.OK() {
 			ue.Discharged++
 			cr.nOK++
 			cr.byBackend[o.Res.Solver]++
